@@ -389,6 +389,16 @@ theorem step_emptySq (h : Q ρ t u) (i : Nat) :
   | none => exact .same h _
   | some hv => simp only [hv.slot.empty]; exact .same h _
 
+theorem step_boolSq (h : Q ρ t u) (i : Nat) :
+    StepR ρ t u (Spec.stepSimple t (.boolSq i)) (Spec.stepSimple u (.boolSq i)) := by
+  simp only [Spec.stepSimple]
+  have hS := h.S.get i
+  generalize aget t.S i = x at hS
+  generalize aget u.S i = y at hS
+  cases hS with
+  | none => exact .same h _
+  | some hv => simp only [hv.slot.repIsSome]; exact .same h _
+
 end
 
 end Sigc.SpecK
